@@ -140,3 +140,43 @@ Theorem C06_history_dependent_refuted :
     extract_after lookup_ct hist g x <> extract_after lookup_ct [] g x.
 Proof. exact history_dependent. Qed.
 Print Assumptions C06_history_dependent_refuted.
+
+(* ---- content type by file name ----------------------------------------------------------------- *)
+(* FALSE of the code as found (ODF and EPUB image content types): two host / process MIME databases give two results *)
+Theorem C06_content_type_global_db_refuted :
+  exists (g1 g2 : registry) (path : str), guess_global (fun p => p) g1 path <> guess_global (fun p => p) g2 path.
+Proof. exact content_type_global_db_dependent. Qed.
+Print Assumptions C06_content_type_global_db_refuted.
+
+(* repaired (private table): the same result on every host database g1 g2 and after every two process histories,
+   INCLUDING histories that write to the global registry -- no premise *)
+Theorem C06_content_type_private_db_independent :
+  forall (ext_of : str -> str) (T : registry) (h1 h2 : list effect) (g1 g2 : registry) (x : str),
+    extract_after (guess_private ext_of T) h1 g1 x = extract_after (guess_private ext_of T) h2 g2 x.
+Proof. exact content_type_private. Qed.
+Print Assumptions C06_content_type_private_db_independent.
+
+(* ---- reprs of library objects ------------------------------------------------------------------- *)
+(* the pattern used by pdf_extractor removes id(reader) from repr(IndirectObject(n, g, reader)) for EVERY object
+   number, EVERY generation and EVERY two addresses, and the scan never runs out of fuel *)
+Theorem C06_strip_reader_id_independent :
+  forall dn dg did1 did2 : str,
+    is_digits dn = true -> is_digits dg = true -> is_digits did1 = true -> is_digits did2 = true ->
+    strip_ids true (show_ind dn dg did1) = strip_ids true (show_ind dn dg did2)
+    /\ strip_ids true (show_ind dn dg did1) <> None.
+Proof. exact strip_independent. Qed.
+Print Assumptions C06_strip_reader_id_independent.
+
+(* a pattern that only accepts generation 0 lets the address through (the model can express that defect) *)
+Theorem C06_strip_generation_zero_only_refuted :
+  exists dn dg did1 did2, is_digits dn = true /\ is_digits dg = true /\ is_digits did1 = true /\ is_digits did2 = true /\
+    strip_ids false (show_ind dn dg did1) <> strip_ids false (show_ind dn dg did2).
+Proof. exact strip_gen0_only_leaks. Qed.
+Print Assumptions C06_strip_generation_zero_only_refuted.
+
+Example C06_strip_inside_array_and_dict :
+  strip_ids true (s "['/ICCBased', IndirectObject(6, 1, 139875842957936)]") = Some (s "['/ICCBased', IndirectObject(6, 1)]")
+  /\ strip_ids true (s "{'/K': IndirectObject(8, 7, 1), '/L': [IndirectObject(10, 0, 22)]}")
+     = Some (s "{'/K': IndirectObject(8, 7), '/L': [IndirectObject(10, 0)]}").
+Proof. exact strip_in_array. Qed.
+Print Assumptions C06_strip_inside_array_and_dict.
